@@ -224,6 +224,20 @@ class Exec(object):
         if isinstance(v, (VInst,)):
             cls = v.cls
             if isinstance(cls, type) and (hasattr(cls, '__bool__') or hasattr(cls, '__len__')):
+                # Python's rule: __bool__ if defined, else __len__() != 0.  Run the real method; accepted only when it
+                # has a single outcome that leaves the heap and the path condition alone (a pure observer).
+                meth = '__bool__' if hasattr(cls, '__bool__') else '__len__'
+                try:
+                    probe = path.fork()
+                    g = self.getattr_v(probe, v, meth)
+                    outs = self.call(g[0][0], g[0][1], [], {}) if len(g) == 1 else []
+                except Unsupported:
+                    outs = []
+                if len(outs) == 1 and not isinstance(outs[0][1], Raise) and isinstance(outs[0][1], (VBool, VInt)) \
+                        and len(outs[0][0].pc) == len(path.pc) \
+                        and {k: x for k, x in outs[0][0].heap.items() if k[0] != 'l'} == {k: x for k, x in path.heap.items() if k[0] != 'l'}:
+                    r = outs[0][1]
+                    return r.t if isinstance(r, VBool) else r.t != 0
                 raise Unsupported('truth of instance with __bool__/__len__ %r' % (v,))
             return z3.BoolVal(True)
         if isinstance(v, (VOpaque, VFunc, VBoundExt)):
